@@ -159,6 +159,10 @@ class PcolSuite:
             k = rng.choice([0, 1, 2, 3, 5, 8, 12, 20, 40])
             mode = rng.choice(["source", "destination", "source", "destination", "auto", "src", ""])
             cases.append({"k": "pcol", "mode": mode, "triples": rand_triples(rng, k)})
+            if i % 6 == 0:
+                # the arguments are typed Iterable: tuples, arrays and one-shot iterators / generators are legal
+                cases.append({"k": "pcol", "mode": rng.choice(["source", "destination"]), "triples": rand_triples(rng, max(k, 2)),
+                              "argtype": rng.choice(["tuple", "iter", "gen", "array", "map"])})
         base = rand_triples(random.Random(seed + 6), 5)
         for perm in itertools.permutations(base):
             for mode in ("source", "destination"):
@@ -204,8 +208,10 @@ class PcolSuite:
             for g in groups.values():
                 if list(numpy.argsort(g)) != list(numpy.argsort(g, kind="stable")):
                     return {"drop": "argsort-ties"}
+        how = case.get("argtype", "list")
+        conv = {"list": list, "tuple": tuple, "iter": iter, "gen": lambda x: (y for y in x), "array": numpy.array, "map": lambda x: map(lambda y: y, x)}[how]
         try:
-            out = partition_by_column(srcs, dsts, vols, case["mode"])
+            out = partition_by_column(conv(srcs), conv(dsts), conv(vols), case["mode"])
             return {"err": None, "val": [[[str(s), str(d), fro(v)] for s, d, v in zip(*g)] for g in out]}
         except Exception as e:
             return {"err": errcode(e), "exc": type(e).__name__}
@@ -315,6 +321,7 @@ class WellsSuite:
                 cases.append({"k": "bad", "trough": tr, "rows": r, "cols": c, "id": i})
         for r, c in [(1, 1), (2, 3), (8, 12), (16, 24), (26, 99), (27, 2), (30, 1), (3, 100)]:
             cases.append({"k": "arr", "R": r, "C": c})
+            cases.append({"k": "arr", "R": r, "C": c, "mutate_first": True})
         return cases
 
     @staticmethod
@@ -338,6 +345,14 @@ class WellsSuite:
         from robotools.fluenttools.utils import get_well_position as fl_pos
 
         if case["k"] == "arr":
+            if case.get("mutate_first"):
+                a0 = transform.make_well_array(case["R"], case["C"])
+                d0 = transform.make_well_index_dict(case["R"], case["C"])
+                if a0.size:
+                    a0[...] = "Z99"
+                for k_ in list(d0):
+                    d0[k_] = (99, 99)
+                d0["junk"] = (0, 0)
             arr = transform.make_well_array(case["R"], case["C"])
             d = transform.make_well_index_dict(case["R"], case["C"])
             return {"wells": [[str(x) for x in row] for row in arr], "keys": [[k, list(v)] for k, v in d.items()]}
@@ -601,8 +616,13 @@ def ctor_specs(rng, tier):
         elif r < 0.4:
             spec["column_names"] = "single"
         elif r < 0.5:
-            spec["column_names"] = [rng.choice(["a", None]) for _ in range(c_ok + 1)]
+            spec["column_names"] = [rng.choice(["a", None]) for _ in range(c_ok + 1)] if rng.random() < 0.7 else []
         specs.append(spec)
+    # otherwise valid troughs whose per-column name list has the wrong length, the empty list included
+    for cols_ in (1, 2, 3):
+        for cn in ([], [None] * (cols_ + 1), ["a"] * (cols_ - 1) if cols_ > 1 else ["a", "b"]):
+            specs.append({"kind": "trough", "name": "T", "vrows": 4, "cols": cols_, "min": "0", "max": "1000",
+                          "init": {"shape": "scalar", "v": "100"}, "column_names": list(cn)})
     return specs
 
 
@@ -630,8 +650,29 @@ class CtorSuite:
         except Exception as e:
             return {"err": errcode(e), "exc": type(e).__name__}
         vols = progbase.vols_obs(lw)
+        # the labware owns its state: built from a float64 ndarray, it neither aliases the caller's array nor a sibling built from it
+        independent = None
+        init = case["spec"].get("init")
+        if init is not None and init["shape"] != "scalar":
+            import numpy
+
+            try:
+                arr = numpy.array(np_arg(init, to_float), dtype=float)
+                a = progbase.build_labware(case["spec"], shared=arr)
+                b = progbase.build_labware(case["spec"], shared=arr)
+                before = progbase.vols_obs(a)
+                arr += 1.0
+                w0 = str(b.wells[0][0])
+                room = float(b.max_volume) - float(b.volumes.flatten()[0])
+                if room >= 0.5:
+                    b.add(w0, 0.5)
+                independent = (progbase.vols_obs(a) == before and progbase.vols_obs(a) == vols
+                               and [fro(x) for x in a.history[0][1].flatten().tolist()] == vols and len(a.history) == 1)
+            except Exception as e:
+                independent = f"raised {type(e).__name__}"
         return {
             "err": None,
+            "independent": independent,
             "wells": [[str(x) for x in row] for row in lw.wells],
             "keys": [[k, [int(v[0]), int(v[1])]] for k, v in lw.indices.items()],
             "vshape": list(lw._volumes.shape),
@@ -663,7 +704,28 @@ class CtorSuite:
     def kind(self, case, obs):
         return case["spec"]["kind"] + ":" + (obs.get("exc") or "ok")
 
+    def oracle_C02(self, case, obs):
+        """no accepted labware starts with a well outside [0, max_volume]"""
+        if obs.get("err"):
+            return []
+        bad = []
+        mx = obs["max"]
+        for j, v in enumerate(obs["vols"]):
+            if v in ("nan", "inf", "-inf"):
+                bad.append(f"finite: accepted labware starts with a non-finite volume in well {j}")
+            elif Fraction(v) < 0:
+                bad.append(f"negative: accepted labware starts with {v} in well {j}")
+            elif mx not in ("nan", "inf", "-inf") and Fraction(v) > Fraction(mx):
+                bad.append(f"max: accepted labware starts with {v} in well {j}, above max_volume {mx}")
+        return bad[:3]
+
     def oracle_C20(self, case, obs):
+        if not obs.get("err") and obs.get("independent") not in (None, True):
+            return ["history: the labware shares state with the array it was built from (or with a sibling built from the same array): "
+                    f"after the caller changed the array / the sibling was pipetted, volumes or the initial history entry changed ({obs['independent']})"]
+        return self._oracle_C20(case, obs)
+
+    def _oracle_C20(self, case, obs):
         s = case["spec"]
         bad = []
         plate = s["kind"] == "plate"
@@ -959,6 +1021,9 @@ class XformSuite:
                     cases.append({"k": d, "R": R, "C": C, "wells": {"shape": "list", "v": [wid(rng.randrange(R), rng.randrange(C)) for _ in range(3)]}})
                     cases.append({"k": d, "R": R, "C": C, "wells": {"shape": "2d", "v": [[wid(r, c) for r in range(R)][::-1] for c in range(C)]}})
                 cases.append({"k": "cw", "R": R, "C": C, "wells": {"shape": "scalar", "v": wid(R - 1, C - 1)}})
+                if (R + C) % 4 == 0:
+                    cases.append({"k": "cw", "R": R, "C": C, "wells": allw, "other_first": True})
+                    cases.append({"k": "ccw", "R": R, "C": C, "wells": {"shape": "list", "v": [wid(0, 0), wid(R - 1, 0), wid(0, C - 1)]}, "other_first": True})
                 if R > 1 and C > 1:
                     for d in ("cw", "ccw"):
                         cases.append({"k": d, "R": R, "C": C, "wells": allw, "fortran": True})
@@ -1062,6 +1127,10 @@ class XformSuite:
         try:
             if k in ("cw", "ccw"):
                 rot = transform.WellRotator((case["R"], case["C"]))
+                if case.get("other_first"):
+                    # one rotator object serves both directions, in any order of use
+                    (rot.rotate_ccw if k == "cw" else rot.rotate_cw)(arg)
+                    (rot.rotate_cw if k == "cw" else rot.rotate_ccw)(arg)
                 res = (rot.rotate_cw if k == "cw" else rot.rotate_ccw)(arg)
             elif k in ("shift", "unshift"):
                 sh = transform.WellShifter(tuple(case["A"]), tuple(case["B"]), case["anchor"])
@@ -1318,6 +1387,15 @@ class SaveSuite:
 
     def kind(self, case, obs):
         return case["via"] + ":" + (obs.get("exc") or "ok")
+
+    def oracle_C01(self, case, obs):
+        """the file the robot executes holds the emitted records, one per line, nothing lost or merged"""
+        if obs.get("err") or any("\n" in r or "\r" in r for r in case["recs"]):
+            return []
+        recs_final = case["recs"] + (["C;after the snapshot"] if case["via"] == "with_save_other" else [])
+        if obs["readback"] != (recs_final if recs_final else [""]):
+            return [f"file: the saved file holds {len(obs['readback'] or [])} lines for {len(recs_final)} emitted records, or different ones"]
+        return []
 
     def oracle_C17(self, case, obs):
         bad = []
